@@ -5,6 +5,20 @@ COMMON_TB = [
 ]
 
 PROPS = {
+    'C20': dict(
+        id='C20',
+        lean_modules=['OrasModel.Props.C20'],
+        domains=['C20'],
+        required_theorems=['c20_accept_iff', 'c20_decomposition_unique', 'c20_roundtrip', 'c20_url_slot',
+                           'c20_gen_cfg_ok', 'c20_gen_url_chars', 'c20_current_source', 'c20_repo_forms'],
+        level_text='Theorems (for every string and every registry validator): ParseReference accepts s and returns r iff s decomposes per the documented grammar into r\'s parts (decomposition grammar, not a re-statement of the search); the decomposition is unique; parse(format(r)) = r; accepted repository/reference contain none of ? # % and the reference no /, so the URL path has exactly the intended segments; Repository.ParseReference maps tag, digest, tag@digest and fully-qualified forms to one reference. The recognisers are the regex trees regenerated from registry/reference.go and go-digest; their character exclusions are decided on those trees.',
+        level_note='Registry validation (net/url) is a parameter of the model, fed per string from the real ValidateRegistry by the harness; Go regexp is re-implemented as a derivative matcher and differentially tested; lenient bare-colon/at forms are part of the model grammar but not judged. URL assembly is checked by the harness through net/url.',
+        thorough_seeds=2,
+        rule='strings: exhaustive over a 12-character delimiter/class alphabet up to the length bound, registry/path products, digest and tag boundary forms, seeded mutations of valid references; non-trivial = accepted by the implementation (every component recogniser ran), distinct strings',
+        trusted_base=COMMON_TB + ['net/url ParseRequestURI (registry validator) is a parameter; regexp/syntax parse of the literals'],
+        assumptions=['sha256/384/512 are the registered digest algorithms (crypto packages linked)'],
+        stated_not_proved=[],
+    ),
     'C05': dict(
         id='C05',
         lean_modules=['OrasModel.Props.C05'],
